@@ -41,7 +41,7 @@ func (e *Engine) collectDynTypes() {
 func (e *Engine) encodeFunction(name string) (fe *FuncEnc, err error) {
 	fn := e.funcs[name]
 	fe = &FuncEnc{eng: e, fn: fn, name: name, con: e.contracts[name], declared: map[string]bool{}, inlined: map[string]bool{},
-		trusted: map[string]bool{}, assumes: map[string]bool{}, bvOffsets: map[string]bvOffset{}}
+		trusted: map[string]bool{}, assumes: map[string]bool{}, bvOffsets: map[string]bvOffset{}, consts: map[string]bool{}}
 	defer func() {
 		if r := recover(); r != nil {
 			if ee, ok := r.(*EngineError); ok {
@@ -176,6 +176,8 @@ func setup(repo string) (*Engine, error) {
 	e.compSorts["XS_strings_Builder"] = arrSort(SInt, SStr)
 	e.compSorts["X_strings_Builder"] = arrSort(SInt, SInt)
 	e.collectDynTypes()
+	e.scanCtorOnly()
+	e.registerAllComps()
 	for _, t := range e.dynTypes {
 		e.sorts.tagOf(t)
 	}
@@ -410,6 +412,9 @@ func runCheck(repo, mode string, args []string) int {
 	}
 	parallel(16, jobs)
 	// pass 2: individual portfolio for what is left
+	for _, fe := range encs {
+		fe.indexItems()
+	}
 	jobs = nil
 	for _, o := range selected {
 		o := o
